@@ -618,6 +618,12 @@ def withdraw_rules(R, env, prog, hctx, rule, pid):
         amt, den = coin_parts(elems[0]) if len(elems) == 1 else (None, None)
         good = False
         why = fmt(amt or ("none",))[:200]
+        from engine.analysis import forms as _forms
+        for af in (_forms(prog, amt, 1) if amt is not None else []):
+            # (a helper such as compute_withdraw_amount(received, request, total) is looked through)
+            if af[0] == "call" and af[1] == "cosmwasm_std::Uint128::multiply_ratio" and len(af[2]) == 3:
+                amt = af
+                break
         if amt is not None and amt[0] == "call" and amt[1] == "cosmwasm_std::Uint128::multiply_ratio" and len(amt[2]) == 3:
             recv, num, den_ = amt[2]
             good = (
